@@ -331,11 +331,15 @@ impl Selector {
     pub fn add_io_timer(&self, io: &IoData, timeout: Duration) {
         let id = io.fd as usize % self.vec.len();
         // info!("io timeout = {:?}", dur);
-        let (h, b_new) = self.vec[id].timer_list.add_timer(timeout, io.timer_data());
+        let mut b_new = false;
+        io.arm_timer(|data| {
+            let (h, is_new) = self.vec[id].timer_list.add_timer(timeout, data);
+            b_new = is_new;
+            h
+        });
         if b_new {
             // wakeup the event loop thread to recall the next wait timeout
             self.wakeup(id);
         }
-        io.timer.borrow_mut().replace(h);
     }
 }
